@@ -45,10 +45,51 @@ def gen_doc(rng):
             return '[tx (lit "%s"); o "br"; o "b"; c "b"]' % t, "<mj-raw>%s<br/><b></b></mj-raw>" % t
         return '[tx (lit "%s")]' % t, "<mj-raw>%s</mj-raw>" % t
 
-    def leaf():
-        if rng.random() < 0.1:
+    def opt(f):
+        """(coq option term, source) for an optional piece of author content"""
+        if rng.random() < 0.75:
+            t = stext()
+            return '(Some (lit "%s"))' % t, f(t)
+        return "None", f("")
+
+    def composite():
+        k = rng.choice(["table", "social", "navbar", "accordion"])
+        tags.add("mj-" + k)
+        if k == "table":
+            t = stext()
+            return ('KTable [o "tr"; o "td"; tx (lit "%s"); c "td"; c "tr"]' % t), "<mj-table><tr><td>%s</td></tr></mj-table>" % t
+        if k == "social":
+            vert = rng.random() < 0.4
+            els = [opt(lambda x: '<mj-social-element name="%s">%s</mj-social-element>' % (rng.choice(["facebook", "twitter", "github"]), x)) for _ in range(rng.choice([0, 1, 2, 3]))]
+            return ("KSocial %s [%s]" % ("true" if vert else "false", "; ".join(t for t, _ in els)),
+                    "<mj-social%s>%s</mj-social>" % (' mode="vertical"' if vert else rng.choice(["", ' icon-size="30px"']), "".join(m for _, m in els)))
+        if k == "navbar":
+            ham = rng.random() < 0.4
+            links = []
+            for _ in range(rng.choice([0, 1, 2, 3])):
+                t = stext()
+                links.append(('(lit "%s")' % t, '<mj-navbar-link href="https://x/">%s</mj-navbar-link>' % t))
+            return ("KNavbar %s [%s]" % ("true" if ham else "false", "; ".join(t for t, _ in links)),
+                    "<mj-navbar%s>%s</mj-navbar>" % (' hamburger="hamburger"' if ham else "", "".join(m for _, m in links)))
+        els = []
+        for _ in range(rng.choice([0, 1, 2])):
+            tt, tm = (opt(lambda x: "<mj-accordion-title>%s</mj-accordion-title>" % x)) if rng.random() < 0.8 else ("None", "")
+            xt, xm = (opt(lambda x: "<mj-accordion-text>%s</mj-accordion-text>" % x)) if rng.random() < 0.8 else ("None", "")
+            # an element written with an empty title / text still renders the (empty) cell: only absent children are None
+            if tt == "None" and tm:
+                tt = '(Some (lit ""))'
+            if xt == "None" and xm:
+                xt = '(Some (lit ""))'
+            els.append(("(%s, %s)" % (tt, xt), "<mj-accordion-element>%s%s</mj-accordion-element>" % (tm, xm)))
+        return "KAccordion [%s]" % "; ".join(t for t, _ in els), "<mj-accordion>%s</mj-accordion>" % "".join(m for _, m in els)
+
+    def leaf(in_hero=False):
+        x = rng.random()
+        if x < 0.1:
             t, m = raw()
             return "KRaw %s" % t, m
+        if x < 0.3 and not in_hero:
+            return composite()
         k = rng.choice(list(LEAF))
         m = rng.choice(LEAF[k])
         if k in WITH_TEXT:
@@ -103,7 +144,7 @@ def gen_doc(rng):
             tags.add("full-width-section")
             return "FullWidth %s" % c, m
         if x < 0.68:
-            ks = [leaf() for _ in range(rng.choice([0, 1, 2, 3]))]
+            ks = [leaf(in_hero=True) for _ in range(rng.choice([0, 1, 2, 3]))]      # components with grandchildren inside a hero: listed C04 / C17 finding
             tags.add("hero")
             return "Hero [%s]" % "; ".join(t for t, _ in ks), "<mj-hero%s>%s</mj-hero>" % (rng.choice(["", ' background-color="#222"', ' mode="fixed-height" height="300px"']), "".join(m for _, m in ks))
         if x < 0.76:
